@@ -17,7 +17,7 @@ def Good (tbl : UnitTable) (n : Node) : Prop :=
   unitOk tbl n.kw n.unitsRaw = true ∧ (n.kw = .int → n.unitsRaw = none)
 
 def absEnv (env : Env) : SEnv :=
-  ⟨env.nodes.map absN, env.sources.map (fun s => (s.1, s.2.map absN)), false, env.units⟩
+  ⟨env.nodes.map absN, env.sources.map (fun s => (s.1, s.2.map absN)), false, env.units, env.srcUnits⟩
 
 def Inv (tbl : UnitTable) (env : Env) : Prop :=
   (∀ n ∈ env.nodes, Good tbl n) ∧ (∀ s ∈ env.sources, ∀ n ∈ s.2, Good tbl n)
